@@ -306,6 +306,7 @@ pub fn by_family(fam: &str, seed: u64) -> Scenario {
         "floodBc" => flood_bc(seed),
         "inlineA" => inline_a(seed),
         "wuBurstBs" => wu_burst_bs(seed),
+        "mutateB" => mutate_b(seed),
         _ => mix_a(seed, false),
     }
 }
@@ -1598,5 +1599,28 @@ pub fn wu_burst_bs(seed: u64) -> Scenario {
     // q1: everything received and read; writes blocked from then on; q2: large heads staged; q3: all releases; q5: writes resume
     s.env.push(EnvStep { at: "q".into(), n: 1, op: EnvOp::Budget { ep: 1, n: Some(0) } });
     s.env.push(EnvStep { at: "q".into(), n: rng.gen_range(4..6), op: EnvOp::Budget { ep: 1, n: None } });
+    s
+}
+
+// ---------------------------------------------------------------------------
+// C08: mutated frames. A legal (or abusive) exchange of a scripted peer with a real endpoint, both roles, whose byte
+// stream is corrupted after the connection preface / first SETTINGS: single octets flipped, replaced, dropped, doubled -
+// in frame heads, length fields, HPACK blocks and payloads alike, at any read fragmentation. Whatever arrives, the
+// endpoint must not panic, spin or hang the connection task; what it writes itself must stay legal.
+pub fn mutate_b(seed: u64) -> Scenario {
+    let mut rng = StdRng::seed_from_u64(seed ^ 0x3074_7E);
+    let mut s = match rng.gen_range(0..6) {
+        0 => flow_bs(seed),
+        1 => flow_bc(seed),
+        2 => ctl_b(seed),
+        3 => conc_bc(seed),
+        4 => goaway_bc(seed),
+        _ => abuse_b(seed),
+    };
+    s.name = format!("mutateB-{}", seed);
+    s.coop = false;
+    s.aims = vec!["C08".into()];
+    s.peer_cfg.mutate = Some((seed, rng.gen_range(24..600), pick(&mut rng, &[20u32, 100, 400, 2000])));
+    s.io.deliver = pick(&mut rng, &["all", "rand", "byte"]).to_string();
     s
 }
